@@ -179,3 +179,60 @@ func HarnessC07FailedImportHistory() {
 		verifrt.Assert(ok && iv == want, "call-after-failed-import-sees-a-fully-initialised-module")
 	}
 }
+
+// HarnessC07EarlierContexts: events that concern an earlier invocation's context
+// never cut a later invocation short or make it return a wrong value.
+func HarnessC07EarlierContexts() {
+	a := verifrt.Int64()
+	globals := map[string]any{"a": object.NewInt(a)}
+	for name, bi := range builtins.Builtins() {
+		globals[name] = bi
+	}
+	names := make([]string, 0, len(globals))
+	for n := range globals {
+		names = append(names, n)
+	}
+	verifrt.SchedBounds(1, 2)
+	ctx1, cancel1 := context.WithCancel(context.Background())
+	defer cancel1()
+	second := c07Compile("t := 0\nfor i := 0; i < 6; i++ { t += a }\nt", names)
+	verifrt.Assert(second != nil, "setup-compiles")
+	if second == nil {
+		return
+	}
+	var machine *VirtualMachine
+	switch verifrt.Choose(2) {
+	case 0:
+		// invocation 1 finishes normally under ctx1; ctx1 is cancelled at some
+		// instant during invocation 2
+		first := c07Compile("h := func(p) { return p + 1 }\nh(a)", names)
+		machine = New(first, WithGlobals(globals))
+		verifrt.Assert(machine.Run(ctx1) == nil, "first-invocation-succeeds")
+		verifrt.AtYield(1+verifrt.Choose(40), cancel1)
+		verifrt.Reach("earlier-context-cancelled-later")
+	case 1:
+		// invocation 1 is cancelled mid-run
+		first := c07Compile("h := func(p) { return p + 1 }\nfor { }", names)
+		machine = New(first, WithGlobals(globals))
+		verifrt.AtYield(1+verifrt.Choose(12), cancel1)
+		verifrt.Assert(machine.Run(ctx1) != nil, "first-invocation-is-cancelled")
+		verifrt.Reach("earlier-invocation-cancelled")
+	}
+	var ctx2 context.Context = context.Background()
+	if verifrt.Bool() {
+		c, cancel2 := context.WithCancel(context.Background())
+		defer cancel2()
+		ctx2 = c
+	}
+	err := machine.RunCode(ctx2, second)
+	verifrt.Assert(err == nil, "later-invocation-is-not-cut-short")
+	if err == nil {
+		tos, ok := machine.TOS()
+		iv, isInt := asInt(tos)
+		verifrt.Assert(ok && isInt && iv == 6*a, "later-invocation-returns-its-own-value")
+	}
+	// and a Call afterwards
+	hObj, gerr := machine.Get("t")
+	_ = hObj
+	verifrt.Assert(gerr == nil, "globals-of-the-later-invocation-available")
+}
